@@ -316,8 +316,8 @@ Section JFlat.
     - (* look-up compatible *)
       rewrite !json_parse_ctc_S'.
       rr_step Hty tv tv' E1 E2. rr_step Hops ov ov' E3 E4. unfold jstr_eq in Hty. rewrite <- Hty.
-      destruct (jstr tv) as [ty|e]; [|reflexivity].
       unfold jlist_rel in Hops. rr_step Hops ops ops' E5 E6.
+      destruct (jstr tv) as [ty|e]; [|reflexivity].
       apply jctc_body_compat2; [exact Hops|].
       intros x x' Hin Hin' Hxx. apply (IH m1); [lia|exact Hxx| |].
       + apply depth_jget in E3. pose proof (jlist_depth _ _ _ E5 Hin). lia.
